@@ -98,6 +98,9 @@ impl Decimal {
 // Decimal::one() = 10^18 atomics, Decimal::zero() = 0; `-` aborts on underflow, `+` on overflow (checked arithmetic of cosmwasm-std 1.x)
 impl Decimal {
     #[verifier::external_body] pub fn one() -> (r: Decimal) ensures r.0 as nat == dd() { unimplemented!() }
+    // Fraction::inv: 1/x rounded down to 18 digits, None for zero
+    #[verifier::external_body] pub fn inv(&self) -> (r: Option<Decimal>)
+        ensures (r is None) == (self.0 == 0), r is Some ==> r->Some_0.0 as nat == dd() * dd() / (self.0 as nat) { unimplemented!() }
     // Decimal::percent(x) = x / 100, Decimal::permille(x) = x / 1000 (exact in 18 digits)
     #[verifier::external_body] pub fn percent(x: u64) -> (r: Decimal) ensures r.0 as nat == (x as nat) * 10_000_000_000_000_000nat { unimplemented!() }
     #[verifier::external_body] pub fn permille(x: u64) -> (r: Decimal) ensures r.0 as nat == (x as nat) * 1_000_000_000_000_000nat { unimplemented!() }
@@ -225,7 +228,11 @@ pub trait Api {
         ensures r is Ok ==> r->Ok_0.0@ == human@;
 //%endif
     fn addr_canonicalize(&self, human: &str) -> (r: StdResult<CanonicalAddr>)
+//%if A
+        ensures r is Ok, r->Ok_0.0@ == canon_of(human@);
+//%else
         ensures r is Ok ==> r->Ok_0.0@ == canon_of(human@);
+//%endif
     fn addr_humanize(&self, canonical: &CanonicalAddr) -> (r: StdResult<Addr>)
 //%if A
         // mode A ("can always succeed"): environment services do not fail (address (de)canonicalisation errors are outside the statement of C20)
